@@ -181,6 +181,20 @@ impl Property for C17 {
                         fail(&mut out, "plain|stack-overlaps-image", format!("stack {:#x}+{:#x} overlaps an existing area", start, c.length));
                         return out;
                     }
+                    // the fresh stack works as the guest uses it: a PUSH and the matching POP succeed and
+                    // return the value (whatever slot convention the emulator follows)
+                    if c.length >= 64 && ax.mem_init_area(0x7200_0000, vec![0x50, 0x5b, 0x90, 0x90]).is_ok() && ax.mem_prot(0x7200_0000, 5).is_ok() {
+                        ax.reg_write_64(SR::RIP, 0x7200_0000).unwrap();
+                        ax.reg_write_64(SR::RAX, 0x1122_3344_5566_7788).unwrap();
+                        ax.reg_write_64(SR::RBX, 0).unwrap();
+                        let r1 = step(&mut ax);
+                        let r2 = if r1.is_ok() { step(&mut ax) } else { Api::Ok(true) };
+                        out = out.class("plain-init-stack:push-pop-probe");
+                        if !r1.is_ok() || !r2.is_ok() || ax.reg_read_64(SR::RBX).unwrap() != 0x1122_3344_5566_7788 {
+                            fail(&mut out, "plain|first-push-pop-fails", format!("init_stack({}) at {:#x} left rsp {:#x}; push rax answered {}, pop rbx answered {} (rbx={:#x})", c.length, start, rsp, r1.short(), r2.short(), ax.reg_read_64(SR::RBX).unwrap()));
+                            return out;
+                        }
+                    }
                 }
                 other => {
                     fail(&mut out, &format!("plain|{}", if let Api::Panic(p) = &other { p.signature() } else { "failed".into() }), format!("init_stack({}) answered {}", c.length, other.short()));
@@ -307,7 +321,7 @@ impl Property for C17 {
         out
     }
     fn rule(&self) -> String {
-        "cases: argv/envp lists of 0–59 entries (1/300 of the cases 150–600 more), strings of 0–200 bytes (occasionally 10 KiB) incl. empty and multi-byte UTF-8, no interior NUL; stack sizes 0x10…0x20000 incl. non-multiples of 16 and sizes smaller than the frame; layouts: constructor code at 0x1000 / high, extra areas, a loaded generated ELF; 1/10 plain init_stack; oracle: the guest's view by executing POP instructions (argc, argv pointers to NUL-terminated copies in mapped RW memory, null, envp likewise, null), RSP % 16 = 0, frame, free stack space, strings and image pairwise disjoint (strings may share the stack's area above the frame), free space below RSP within ±48 bytes of the request, the call succeeds; non-trivial = ≥1 argument and ≥1 environment entry, or a frame larger than 1/4 of the stack size; distinct by hash(case)".into()
+        "cases: argv/envp lists of 0–59 entries (1/300 of the cases 150–600 more), strings of 0–200 bytes (occasionally 10 KiB) incl. empty and multi-byte UTF-8, no interior NUL; stack sizes 0x10…0x20000 incl. non-multiples of 16 and sizes smaller than the frame; layouts: constructor code at 0x1000 / high, extra areas, a loaded generated ELF; 1/10 plain init_stack (RSP aligned and inside the stack, no collision, and a first PUSH/POP pair works); oracle: the guest's view by executing POP instructions (argc, argv pointers to NUL-terminated copies in mapped RW memory, null, envp likewise, null), RSP % 16 = 0, frame, free stack space, strings and image pairwise disjoint (strings may share the stack's area above the frame), free space below RSP within ±48 bytes of the request, the call succeeds; non-trivial = ≥1 argument and ≥1 environment entry, or a frame larger than 1/4 of the stack size; distinct by hash(case)".into()
     }
     fn required_classes(&self, _tier: Tier) -> Vec<String> {
         ["layout:0", "layout:1", "layout:2", "layout:3", "frame-larger-than-requested-stack", "odd-count", "even-count", "plain-init-stack"].iter().map(|s| s.to_string()).collect()
